@@ -112,14 +112,23 @@ func (w *kWorld) judgeStep(st *kStep, j *kJudge) {
 			}
 			if t > skc+E+R {
 				j.count("C04.parent-sk-expired-more-than-R")
-				j.fail("C04", "ik-of-expired-sk-used", "%s at t=%d used IK %d whose parent SK %d expired at %d, more than one revoke-check interval (%d) ago", st.Op, t, st.Rec.IKCreated, skc, skc+E, R)
+				cls := "after-latest-load"
+				if (st.LongLived || st.F.spec.SharedIK) && len(st.CacheOpsBefore) > 0 && !contains(st.CacheOpsBefore, "enc") {
+					cls = "cache-filled-by-decrypt-only"
+				}
+				j.fail("C04", "ik-of-expired-sk-used:"+cls, "%s at t=%d used IK %d whose parent SK %d expired at %d, more than one revoke-check interval (%d) ago (operations on this key cache before: %v)", st.Op, t, st.Rec.IKCreated, skc, skc+E, R, st.CacheOpsBefore)
 			}
 			// ---- C05 (parent)
 			if sk := w.row(skID, skc); sk != nil && sk.Rec.Revoked {
 				j.count("C05.parent-sk-revoked")
 				if t > sk.RevokedAt+2*R {
 					j.count("C05.parent-sk-revoked-more-than-2R")
-					j.fail("C05", "ik-of-revoked-sk-used", "%s at t=%d used IK %d whose parent SK %d was revoked at %d, more than two intervals ago", st.Op, t, st.Rec.IKCreated, skc, sk.RevokedAt)
+					// classify: was this key cache only ever filled through exact (decrypt) lookups so far?
+					cls := "after-latest-load"
+					if (st.LongLived || st.F.spec.SharedIK) && len(st.CacheOpsBefore) > 0 && !contains(st.CacheOpsBefore, "enc") {
+						cls = "cache-filled-by-decrypt-only"
+					}
+					j.fail("C05", "ik-of-revoked-sk-used:"+cls, "%s at t=%d used IK %d whose parent SK %d was revoked at %d, more than two intervals ago (operations on this key cache before: %v)", st.Op, t, st.Rec.IKCreated, skc, sk.RevokedAt, st.CacheOpsBefore)
 				}
 			}
 		}
@@ -415,4 +424,13 @@ func (w *kWorld) judgeState(reach map[*doubles.TrackSecret]string, j *kJudge) {
 	if bad := w.ms.CheckImmutable(); len(bad) > 0 {
 		j.fail("C01", "metastore-row-mutated", "stored rows changed: %v", bad)
 	}
+}
+
+func contains(xs []string, x string) bool {
+	for _, y := range xs {
+		if y == x {
+			return true
+		}
+	}
+	return false
 }
